@@ -563,6 +563,23 @@ def run(chk):
         chk.fn_touched |= sub.fn_touched
         r12.require(2, "rules")
 
+    # ------------------------------------------------------------------ R3.13 = C08 R8.3: literals and declarations store copies
+    if not getattr(chk, "nested", False):
+        from .. import core as _core
+        from . import c08 as _c08
+        r13 = chk.rule("R3.13", "vector and map literals store clone_if_necessary(..) of every element value, `var x = e` and first assignment store a clone (C08 R8.3 re-decided)",
+                       "value copies on `var x = y`: an element of `[a, f(), b]` or a declared variable is an object of its own, unmarked, so the next copying declaration copies it")
+        sub8 = _core.Check("C08", tier=chk.tier)
+        sub8.prog = prog
+        sub8.nested = True
+        _c08.run(sub8)
+        sr8 = [r for r in sub8.rules if r.rid == "R8.3"]
+        r13.anchor(bool(sr8), "C08 R8.3")
+        for v in [v for v in sub8.violations if v["rule"] == "R8.3"]:
+            r13.ob("R8.3: %s" % v["instance"], False, v["where"], v["function"], v["detail"])
+        r13.ob("C08 R8.3 decided (%d obligations)" % sr8[0].obligations, True, "", "", "")
+        r13.require(1, "rule")
+
     # ------------------------------------------------------------------ R3.4
     r4 = chk.rule("R3.4", "block-structured constructs evaluate their children inside a scope of their own",
                   "block-scoped variables with shadowing; nothing declared inside a block, loop, case or try is visible after it")
